@@ -33,7 +33,7 @@ def main():
             return 1
         print("replay: construct %s no longer violates %s" % (rec.get("key"), rec.get("rule")))
         return 0 if code != 2 else 2
-    code, rules, viols, _ = run_property(pid, mod, tier=a.tier, seed=seed, root=a.root)
+    code, rules, viols, _ = run_property(pid, mod, tier=a.tier, seed=seed, root=a.root, write_evidence=(a.root is None))
     if a.tier == "thorough" and code != 2:
         from . import selftest
         st = selftest.run(pid, mod, seed=seed)
